@@ -137,6 +137,10 @@ func c18IntentRT() {
 	_, err := m.WriteTo(w)
 	if err != nil {
 		verifCover("rejected")
+		// only what cannot be represented may be refused: a string beyond the
+		// one-byte length field, or a grant type whose data has no encoding
+		tooLong := verifOr(len(in.TargetUsername) > 255, verifAnd(in.GrantType == Command, len(in.AssociatedData.CommandGrantData.Cmd) > 255))
+		verifAssert(verifOr(tooLong, verifOr(in.GrantType == LocalPF, in.GrantType == RemotePF)), "C18: an intent whose fields all fit their length fields (user name and command of up to 255 bytes) is encoded, not refused half-way")
 		return
 	}
 	verifCover("accepted")
